@@ -132,6 +132,15 @@ func c20Names(r *Run) {
 			r.Op("path id url "+arg, obs)
 			r.Eval("url/"+u, class != "plain")
 			r.Count("id-url:" + class)
+			if ok {
+				// hypothesis of C20.file_and_url_never_share_a_store: the normaliser's output contains no byte below 0x20
+				for k := 0; k < len(nrm); k++ {
+					if nrm[k] < 0x20 {
+						r.Violate("C20 normalised-url-contains-control-byte", fmt.Sprintf("url.Parse(%q).String() = %q", u, nrm), u)
+						break
+					}
+				}
+			}
 			if err == nil {
 				recs = append(recs, c20IdRec{"url", class, nrm, id})
 			} else if ok {
@@ -229,15 +238,28 @@ func c20Names(r *Run) {
 		}
 		byID[rec.kind+rec.id] = rec
 	}
-	// kinds are not separated from each other: a file *named* like a normalised URL gets the URL's store
-	fid, _ := (&crlloader.FileLoader{FileName: base + "/crl/a.crl"}).GetCRLLocationIdentifier()
-	uid, _ := (&crlloader.URLLoader{UrlString: base + "/crl/a.crl"}).GetCRLLocationIdentifier()
-	r.Op("path id file "+hexs([]byte(base+"/crl/a.crl")), fid)
-	r.Eval("cross-kind", true)
-	if fid == uid {
-		r.Count("observation:file-named-like-url-shares-the-url-store")
-		r.Note("observation: crl_files entry whose name equals a normalised crl_urls string maps to the same store directory " +
-			"(identifier = SHA-256 of the bare string for both kinds; Lean: C20.kinds_not_separated)")
+	// kinds are separated: a file *named* like a (normalised) URL, like a CDP pre-image or like an identifier must not get
+	// the store of that URL / CDP list (every file name used above is also tried as the name of a file, and vice versa)
+	anyID := map[string]c20IdRec{}
+	for _, rec := range recs {
+		if p, ok := anyID[rec.id]; ok && p.kind != rec.kind {
+			r.Violate("C20 file-and-url-share-a-store", fmt.Sprintf("%s %q and %s %q -> %s", p.kind, p.pre, rec.kind, rec.pre, rec.id), rec.pre)
+		}
+		anyID[rec.id] = rec
+	}
+	for _, rec := range recs {
+		if rec.kind == "file" || len(rec.pre) > 4096 {
+			continue
+		}
+		for _, name := range []string{rec.pre, rec.id, "\x00file:" + rec.pre} {
+			fid, _ := (&crlloader.FileLoader{FileName: name}).GetCRLLocationIdentifier()
+			r.Op("path id file "+hexs([]byte(name)), fid)
+			r.Eval("cross-kind/"+rec.kind+"/"+name, true)
+			if p, ok := anyID[fid]; ok && p.kind != "file" {
+				r.Violate("C20 file-and-url-share-a-store", fmt.Sprintf("crl_files entry %q gets the store %s of %s location %q", name, fid, p.kind, p.pre), name)
+			}
+		}
+		r.Count("cross-kind:" + rec.kind)
 	}
 	// filepath.Join vs the model
 	wds := []string{"/srv/wd", "/srv/wd/", "wd", "./wd", "../wd", "/", "//", "/a/../b", "/a/./b//c/", "a/../../b", "/..", "..", ".", "/a/b/../../..", "a//b", "/ü/列"}
